@@ -287,6 +287,23 @@ def check_controller_constants(F, run):
                 run.check(cls != "weak-shrink", "R5.4", sname + "Solver::step", "reject-shrinks-by-a-margin:" + pp(w)[:40], F.loc(b, w),
                           "on a rejected step `%s`: %s — a step that just fails is retried with an almost unchanged step, each retry costing a full restart" % (pp(w)[:50], detail))
         run.floor("R5.4", sname + "Solver::step", "step-size writes on the reject path", n, 1, F.loc(b))
+    # R5.5 a rejected step's shrink must survive until the retry: every write to dt that is neither on the accepted edge nor on the reject path
+    # (i.e. it runs on every call, before the accept test) never enlarges the step
+    for sname, prefix in (("RungeKutta", "ivp::rk::RungeKuttaSolver<"), ("Adams", "ivp::adams::AdamsSolver<"), ("BDF", "ivp::bdf::BDFSolver<")):
+        b = M.method_of(F, prefix, "IVPStepper", "step")
+        n = 0
+        tests = [x for x in walk(b["body"], into_closures=False) if x.get("k") == "If" and c02.accept_polarity(b, x["c"]) is not None]
+        if not tests:
+            run.broken("R5.5", sname + "Solver::step", "accept-test", F.loc(b), "no accept test found")
+            continue
+        for w in walk(b["body"], into_closures=False):
+            if w.get("k") in ("Assign", "AssignOp") and place(w["l"]) == "self.dt" and c02.accept_guard(b, w) == 0 and cfg.before(b["body"], w, tests[0]):
+                n += 1
+                okw, why = c01.write_never_grows(F, b, w)
+                run.check(okw, "R5.5", sname + "Solver::step", "pre-test-write-never-grows:" + pp(w)[:40], F.loc(b, w),
+                          "`%s` runs on every call before the accept test and %s — after a rejection the shrunk step is overwritten on the retry, which repeats the rejected step forever"
+                          % (pp(w)[:50], why), sample="%s: %s (%s)" % (sname, pp(w)[:40], why))
+        run.floor("R5.5", sname + "Solver::step", "step-size writes before the accept test", n, {"RungeKutta": 1, "Adams": 2, "BDF": 2}[sname], F.loc(b))
     # constants of the multistep solvers
     for kind, impl, O, names in (("adams", M.ADAMS_IMPLS["AdamsCoefficients5"][0], 5, ("one_tenth", "half", "two", "four", "one_sixth")),
                                  ("bdf", M.BDF_IMPLS["BDF6Coefficients"][0], 7, ("one_tenth", "half", "two", "one_sixth"))):
